@@ -513,7 +513,11 @@ func ruleC19_4(c *Ctx) {
 		} else {
 			// a key is returned only with a nil error and only where its parser succeeded
 			pc, idx := producer(r.Results[0], r)
-			c.check(pc != nil && idx == 0 && isNilConst(r.Results[1]) && c.okCallAt(pc, r.Block()), R, fname(f), "a key is returned only where its parser succeeded", instrPos(r), calleeName(pc), "a parsed value is returned although its parser reported an error")
+			bad := "a parsed value is returned although its parser reported an error"
+			if pc == nil {
+				bad = "the returned key is " + short(org(r.Results[0])) + ", not the direct result of one of the parsers (an element picked out of a list may not exist: x509.ParseCertificates returns an empty list without an error for empty input)"
+			}
+			c.check(pc != nil && idx == 0 && isNilConst(r.Results[1]) && c.okCallAt(pc, r.Block()), R, fname(f), "a key is returned only where its parser succeeded", instrPos(r), calleeName(pc), bad)
 		}
 	}
 	c.check(okSent, R, fname(f), "otherwise ErrFailedPEMParsing", f.Pos(), "final return (nil, ErrFailedPEMParsing)", "a blob in none of the encodings does not fail with ErrFailedPEMParsing")
